@@ -14,8 +14,18 @@
 (*     pullCompareSend: newData, err := pull(); err -> return                                    *)
 (*                      !isDataEqual(data, newData) -> data = newData; send(data)   -- Send      *)
 (*                                                                                              *)
-(* A pull is one etcd range read: it returns the content of the watched key / prefix at one      *)
-(* instant.  `send` blocks while the channel (capacity Buf; 10 in the code) is full, and the     *)
+(* A pull is one etcd read (GetRaw(key) for Sync / SyncRaw, one range read GetRawPrefix(prefix)  *)
+(* otherwise): it returns the content of exactly the watched key / prefix at one instant.  Both  *)
+(* facts are parameters of the model, so that TLC shows what the clauses owe to them:            *)
+(*   PullScope  the keys a pull returns and `data` keeps (Watched in the code).  A pull that     *)
+(*              reads more than the adapter delivers - e.g. every key that has the watched key   *)
+(*              as a string prefix: k1x for k1 - makes the comparison see changes the consumer   *)
+(*              cannot see, and Distinct fails;                                                 *)
+(*   Page1      the keys of the first page of a pull (Keys in the code: one read).  A pull that   *)
+(*              reads Page1 and then, other steps interleaving, the rest at the then-current     *)
+(*              content (pages not pinned to one store revision) can return a content the store  *)
+(*              never had, and RealStatesMonotone fails.                                        *)
+(* `send` blocks while the channel (capacity Buf; 10 in the code) is full, and the     *)
 (* loop does nothing else meanwhile.  Deviations of the code from the ideal are modelled as      *)
 (* the code behaves: an initially empty content is not delivered (data starts empty).            *)
 (*                                                                                              *)
@@ -31,30 +41,35 @@ CONSTANTS Keys,         \* keys under the prefix
           Vals,         \* values
           Buf,          \* channel capacity
           MaxWrites, MaxRestarts, MaxCancels,
-          Ticker        \* BOOLEAN: FALSE removes the periodic pull (to show Converges is not vacuous)
+          Ticker,       \* BOOLEAN: FALSE removes the periodic pull (to show Converges is not vacuous)
+          PullScope,    \* subset of Keys a pull returns and compares (the code: Watched)
+          Page1         \* subset of Keys read by the first request of a pull (the code: Keys, a pull is one request)
 
 Contents == [Keys -> Vals \cup {"none"}]
 Empty == [k \in Keys |-> "none"]
 Proj(c) == [k \in Keys |-> IF k \in Watched THEN c[k] ELSE "none"]
+Scope(c) == [k \in Keys |-> IF k \in PullScope THEN c[k] ELSE "none"]
+Paged == Page1 # Keys
 
 VARIABLES store,     \* content of the store
           hist,      \* ghost: every (projected) content the store had since the syncer started, in order
           up,        \* the etcd server is running
           walive,    \* the watch is established (FALSE between a cancellation and its re-creation)
           wev,       \* a watch response is pending on watchChan
-          spc,       \* "init" | "loop" | "send"
-          data,      \* the run loop's `data`
+          spc,       \* "init" | "loop" | "send" | "page2" (a paged pull between its two requests)
+          data,      \* the run loop's `data` (over PullScope)
+          half,      \* the content at the first request of a paged pull
           ch,        \* the buffered channel
           recv,      \* ghost: everything the consumer received, in order
           writes, restarts, cancels
 
-vars == <<store, hist, up, walive, wev, spc, data, ch, recv, writes, restarts, cancels>>
+vars == <<store, hist, up, walive, wev, spc, data, half, ch, recv, writes, restarts, cancels>>
 
 Init ==
     /\ store \in Contents          \* the syncer may start on any content
     /\ hist = <<Proj(store)>>
     /\ up = TRUE /\ walive = TRUE /\ wev = FALSE
-    /\ spc = "init" /\ data = Empty /\ ch = <<>> /\ recv = <<>>
+    /\ spc = "init" /\ data = Empty /\ half = Empty /\ ch = <<>> /\ recv = <<>>
     /\ writes = 0 /\ restarts = 0 /\ cancels = 0
 
 (* ---- the store *)
@@ -66,7 +81,7 @@ DoWrite(new, notify) ==
     /\ store' = new
     /\ hist' = Append(hist, Proj(new))
     /\ wev' = IF walive /\ notify THEN TRUE ELSE wev
-    /\ UNCHANGED <<up, walive, spc, data, ch, recv, restarts, cancels>>
+    /\ UNCHANGED <<up, walive, spc, data, half, ch, recv, restarts, cancels>>
 
 (* put (a same-value put also produces a watch event) / delete of one key *)
 PutKey(k, v)  == DoWrite([store EXCEPT ![k] = v], k \in Watched)
@@ -77,11 +92,15 @@ Txn(new)      == new # store /\ DoWrite(new, Touches(new))
 WriteOutside  == DoWrite(store, FALSE)
 
 (* ---- syncer.run *)
-(* pullCompareSend; `spc` afterwards *)
+(* pullCompareSend; `spc` afterwards.  Compare(c): the pull returned content c *)
+Compare(c) ==
+    IF Scope(c) # data
+    THEN /\ data' = Scope(c) /\ spc' = "send"
+    ELSE /\ UNCHANGED data /\ spc' = "loop"        \* equal: nothing happens
 Pull ==
-    IF up /\ Proj(store) # data
-    THEN /\ data' = Proj(store) /\ spc' = "send"
-    ELSE /\ UNCHANGED data /\ spc' = "loop"         \* equal, or the pull failed: nothing happens
+    IF ~up THEN /\ spc' = "loop" /\ UNCHANGED <<data, half>>      \* the pull failed: nothing happens
+    ELSE IF Paged THEN /\ half' = store /\ spc' = "page2" /\ UNCHANGED data
+    ELSE /\ Compare(store) /\ UNCHANGED half
 
 FirstPull  == /\ spc = "init" /\ Pull
               /\ UNCHANGED <<store, hist, up, walive, wev, ch, recv, writes, restarts, cancels>>
@@ -89,41 +108,47 @@ WatchPull  == /\ spc = "loop" /\ wev /\ wev' = FALSE /\ Pull
               /\ UNCHANGED <<store, hist, up, walive, ch, recv, writes, restarts, cancels>>
 TickerPull == /\ Ticker /\ spc = "loop" /\ Pull
               /\ UNCHANGED <<store, hist, up, walive, wev, ch, recv, writes, restarts, cancels>>
+(* the second request of a paged pull: the rest of the keys, as they are now *)
+PullPage2  == /\ spc = "page2" /\ half' = Empty
+              /\ IF up THEN Compare([k \in Keys |-> IF k \in Page1 THEN half[k] ELSE store[k]])
+                       ELSE spc' = "loop" /\ UNCHANGED data
+              /\ UNCHANGED <<store, hist, up, walive, wev, ch, recv, writes, restarts, cancels>>
+(* the adapter delivers the watched part of `data` *)
 Send       == /\ spc = "send" /\ Len(ch) < Buf
-              /\ ch' = Append(ch, data) /\ spc' = "loop"
-              /\ UNCHANGED <<store, hist, up, walive, wev, data, recv, writes, restarts, cancels>>
+              /\ ch' = Append(ch, Proj(data)) /\ spc' = "loop"
+              /\ UNCHANGED <<store, hist, up, walive, wev, data, half, recv, writes, restarts, cancels>>
 
 Consume == /\ ch # <<>> /\ recv' = Append(recv, Head(ch)) /\ ch' = Tail(ch)
-           /\ UNCHANGED <<store, hist, up, walive, wev, spc, data, writes, restarts, cancels>>
+           /\ UNCHANGED <<store, hist, up, walive, wev, spc, data, half, writes, restarts, cancels>>
 
 (* ---- faults *)
 Stop  == /\ up /\ restarts < MaxRestarts
          /\ up' = FALSE /\ restarts' = restarts + 1
          /\ wev' \in {wev, FALSE}                   \* undelivered events may be lost
-         /\ UNCHANGED <<store, hist, walive, spc, data, ch, recv, writes, cancels>>
+         /\ UNCHANGED <<store, hist, walive, spc, data, half, ch, recv, writes, cancels>>
 Start == /\ ~up /\ up' = TRUE
-         /\ UNCHANGED <<store, hist, walive, wev, spc, data, ch, recv, writes, restarts, cancels>>
+         /\ UNCHANGED <<store, hist, walive, wev, spc, data, half, ch, recv, writes, restarts, cancels>>
 Cancel == /\ walive /\ cancels < MaxCancels
           /\ walive' = FALSE /\ wev' = FALSE /\ cancels' = cancels + 1
-          /\ UNCHANGED <<store, hist, up, spc, data, ch, recv, writes, restarts>>
+          /\ UNCHANGED <<store, hist, up, spc, data, half, ch, recv, writes, restarts>>
 Rewatch == /\ spc = "loop" /\ ~walive /\ walive' = TRUE
-           /\ UNCHANGED <<store, hist, up, wev, spc, data, ch, recv, writes, restarts, cancels>>
+           /\ UNCHANGED <<store, hist, up, wev, spc, data, half, ch, recv, writes, restarts, cancels>>
 
 Next == \/ \E k \in Keys, v \in Vals : PutKey(k, v)
         \/ \E k \in Keys : DeleteKey(k)
         \/ \E new \in Contents : Txn(new)
         \/ WriteOutside
-        \/ FirstPull \/ WatchPull \/ TickerPull \/ Send \/ Consume
+        \/ FirstPull \/ WatchPull \/ TickerPull \/ PullPage2 \/ Send \/ Consume
         \/ Stop \/ Start \/ Cancel \/ Rewatch
 
 Spec == Init /\ [][Next]_vars
 (* the ticker fires, the loop runs, the consumer reads, a stopped server is started again *)
-FairSpec == Spec /\ WF_vars(FirstPull) /\ WF_vars(TickerPull) /\ WF_vars(WatchPull) /\ WF_vars(Send)
+FairSpec == Spec /\ WF_vars(FirstPull) /\ WF_vars(TickerPull) /\ WF_vars(WatchPull) /\ WF_vars(PullPage2) /\ WF_vars(Send)
                  /\ WF_vars(Consume) /\ WF_vars(Start) /\ WF_vars(Rewatch)
 
 -----------------------------------------------------------------------------
 (* everything sent so far, in order *)
-Sent == recv \o ch \o (IF spc = "send" THEN <<data>> ELSE <<>>)
+Sent == recv \o ch \o (IF spc = "send" THEN <<Proj(data)>> ELSE <<>>)
 
 RECURSIVE Embeds(_, _, _)
 Embeds(s, h, from) == IF s = <<>> THEN TRUE
@@ -142,6 +167,7 @@ FirstIsCurrent == (writes = 0 /\ Sent # <<>>) => Sent = <<hist[1]>>
 View == IF recv = <<>> THEN Empty ELSE recv[Len(recv)]
 Converges == <>[](View = Proj(store))
 
-TypeOK == /\ store \in Contents /\ data \in Contents /\ spc \in {"init", "loop", "send"}
+TypeOK == /\ store \in Contents /\ data \in Contents /\ spc \in {"init", "loop", "send", "page2"}
+          /\ Watched \subseteq PullScope /\ (spc = "page2" => Paged)
           /\ Len(ch) <= Buf
 =============================================================================
